@@ -375,6 +375,203 @@ def py_stats(texts, names, st):
             st["python_re_rejects"] += 1
 
 
+# ------------------------------------------------------------------ metamorphic stream
+# Black box, no regex oracle: for a selector list S = [p1..pk] (printed ASTs plus patterns with
+# inline flags and constructs outside the modelled subset)
+#   rows(S) == the rows of the unselected output whose (account, commodity) is listed by at least
+#              one single-pattern run [pi]   (same order, identical figures; deltas recomputed),
+#   rows(S) == rows(permutation of S),
+# on the balance (report and equity selector) and on the register.
+from fractions import Fraction
+
+CASE_BASE = ["Assets", "Assets:Cash", "Expenses:Food", "Expenses", "Income:Job", "foo", "foo:bar", "a:b", "ab",
+             "aa", "aaa", "a1", "a22", "x:foo", "Foo:Bar:baz", "é:Ü"]
+
+
+def case_variants(n):
+    return {n, n.lower(), n.upper(), n.swapcase(), ":".join(c.capitalize() for c in n.split(":"))}
+
+
+def esc(n):
+    return pp(lit(n))
+
+
+def flagged(r, n):
+    """patterns with inline flags / constructs outside the AST subset, built around the name n"""
+    lo, first = n.lower(), n.split(":")[0].lower()
+    return r.choice([
+        "(?i)" + esc(lo), "(?i)" + esc(lo), "(?i)" + esc(first) + "(:.*)?", "(?i)" + esc(first) + "(:.*)?",
+        "(?i)zzz", "(?i)" + esc(lo) + "|zzz", "zzz|(?i)" + esc(n.upper()), "(?i:" + esc(lo) + ")", "(?i:" + esc(first) + ")(:.*)?",
+        "(?i)" + esc(first) + ":(?-i)" + esc(n.split(":")[-1]), "(?-i)" + esc(n), "(?s)" + esc(first) + ".*", "(?x) " + " ".join(esc(ch) for ch in n),
+        "(?U)a+", r"\w+", r"a\d+", "[[:alpha:]]+", "[[:upper:]][[:lower:]]+(:.*)?", "a{2,3}", "a{2}", ".*?b", r"\bfoo\b", r"\bfoo\b.*",
+        r".*\bfoo", r"\p{Lu}.*", r"(?i)[a-c]+", r"\x61+", r"[^\W\d]+:[^\W\d]+", "(?i)", "(?m)^" + esc(n) + "$"])
+
+
+def gen_meta_session(r):
+    names = set()
+    for b in r.sample(CASE_BASE, r.randint(3, 5)):
+        vs = sorted(case_variants(b))
+        for v in r.sample(vs, min(len(vs), r.randint(2, 3))):
+            names.add(v)
+        names.add(b)
+    for w in list(names)[:3]:
+        for x in r.sample(neighbours(r, w), 2):
+            names.add(x)
+    names = sorted(x for x in names if valid_account(x))[:18]
+    lists = []
+    for _ in range(r.randint(4, 7)):
+        k = r.randint(2, 4)
+        S = []
+        if r.random() < 0.65:
+            # an unscoped flag somewhere, the other patterns are literal case variants / printed ASTs
+            S.append(flagged(r, r.choice(names)))
+            while len(S) < k:
+                n = r.choice(names)
+                q = r.random()
+                if q < 0.6:
+                    S.append(esc(r.choice(sorted(case_variants(n)))))
+                elif q < 0.85:
+                    S.append(pp(derived(r, r.choice(sorted(case_variants(n))), r.choice(names))))
+                else:
+                    S.append(flagged(r, n))
+            if r.random() < 0.5:
+                r.shuffle(S)
+        else:
+            while len(S) < k:
+                q = r.random()
+                n = r.choice(names)
+                S.append(flagged(r, n) if q < 0.4 else pp(gen_re(r, r.choice([1, 2, 3]))) if q < 0.6 else esc(n) if q < 0.8
+                         else pp(derived(r, n, r.choice(names))))
+        P = list(S)
+        if k == 2 or r.random() < 0.5:
+            P.reverse()
+        else:
+            r.shuffle(P)
+        lists.append((S, P))
+    zero = r.sample(names, min(len(names), r.choice([0, 1, 2])))
+    return {"accounts": names, "zero_accounts": zero, "lists": lists}
+
+
+def dval(j):
+    m, s = dec_parts(j)
+    return Fraction(m, 10 ** s)
+
+
+def bal_rows(out):
+    return [((x["acc"], x["comm"]), (json.dumps(x["own"], sort_keys=True), json.dumps(x["tree"], sort_keys=True))) for x in out["ok"]["rows"]]
+
+
+def reg_rows_of(out):
+    return [[((x["acc"], x["comm"]), (json.dumps(x["amount"], sort_keys=True), json.dumps(x["total"], sort_keys=True))) for x in e["rows"]]
+            for e in out["ok"]]
+
+
+def deltas_recomputed(out):
+    want = {}
+    for x in out["ok"]["rows"]:
+        want[x["comm"]] = want.get(x["comm"], Fraction(0)) + dval(x["own"])
+    got = {d["comm"]: dval(d["delta"]) for d in out["ok"]["deltas"]}
+    return got == want and len(got) == len(out["ok"]["deltas"])
+
+
+def metamorphic(run, toml):
+    r = run.rng
+    n = 14 if run.tier == "quick" else 300
+    sessions = [gen_meta_session(r) for _ in range(n)]
+    kinds = [("report", {"op": "balance", "prices": False}), ("equity", {"op": "balance", "prices": False, "kind": "equity"}),
+             ("register", {"op": "register"})]
+    reqs = []
+    for c in sessions:
+        c["text"] = build_journal(r, c["accounts"], c["zero_accounts"])
+        c["singles"] = sorted(set(p for S, _ in c["lists"] for p in S))
+        ops = [{"op": "balance", "prices": False, "ras": []}, {"op": "register", "ras": []}]
+        for p in c["singles"]:
+            ops += [dict(o, ras=[p]) for _, o in kinds]
+        for S, P in c["lists"]:
+            ops += [dict(o, ras=S) for _, o in kinds] + [dict(o, ras=P) for _, o in kinds]
+        reqs.append({"conf": {"toml": toml}, "inputs": [{"text": c["text"]}], "ops": ops})
+    res = harness_run(reqs)
+    st = {"sessions": n, "lists": 0, "lists_checked": 0, "lists_skipped_single_rejected": 0, "list_rejected_but_singles_accepted": 0,
+          "singles": 0, "singles_rejected": 0, "comparisons": 0, "lists_with_unscoped_inline_flag": 0,
+          "lists_where_a_leaked_(?i)_would_add_a_name (python re as bystander)": 0, "lists_listing_a_proper_subset": 0}
+    for c, rr in zip(sessions, res):
+        if not rr or rr.get("stage") != "done":
+            raise Infra("metamorphic session not loaded: %s" % ((rr or {}).get("err", "") or rr)[:300])
+        rs = rr["results"]
+        unf_b, unf_r = rs[0], rs[1]
+        if "ok" not in unf_b or "ok" not in unf_r:
+            raise Infra("unselected output missing")
+        unf = {"report": bal_rows(unf_b), "equity": bal_rows(unf_b), "register": reg_rows_of(unf_r)}
+        single = {}
+        for i, p in enumerate(c["singles"]):
+            single[p] = {kn: rs[2 + 3 * i + j] for j, (kn, _) in enumerate(kinds)}
+            st["singles"] += 1
+            st["singles_rejected"] += any("ok" not in o for o in single[p].values())
+        base = 2 + 3 * len(c["singles"])
+        for li, (S, P) in enumerate(c["lists"]):
+            st["lists"] += 1
+            outs = {kn: rs[base + 6 * li + j] for j, (kn, _) in enumerate(kinds)}
+            outp = {kn: rs[base + 6 * li + 3 + j] for j, (kn, _) in enumerate(kinds)}
+            if any("ok" not in single[p][kn] for p in S for kn, _ in kinds):
+                st["lists_skipped_single_rejected"] += 1
+                continue
+            if any("ok" not in o for o in list(outs.values()) + list(outp.values())):
+                st["list_rejected_but_singles_accepted"] += 1
+                continue
+            st["lists_checked"] += 1
+            st["lists_with_unscoped_inline_flag"] += any(pyre.match(r"\(\?[a-zA-Z-]+\)", p) or pyre.search(r"[^\\]\(\?[a-zA-Z-]+\)", p) for p in S)
+            try:
+                leak = False
+                for k2, p in enumerate(S):
+                    if "(?i)" in p:
+                        for q in S[k2 + 1:]:
+                            for a in c["accounts"]:
+                                if pyre.fullmatch(q, a, pyre.I) and not any(pyre.fullmatch(x, a) for x in S):
+                                    leak = True
+                st["lists_where_a_leaked_(?i)_would_add_a_name (python re as bystander)"] += leak
+            except pyre.error:
+                pass
+            for kn, _ in kinds:
+                st["comparisons"] += 1
+                what = None
+                if kn == "register":
+                    keys = set(k for p in S for e in reg_rows_of(single[p][kn]) for k, _ in e)
+                    want = [[row for row in e if row[0] in keys] for e in unf[kn]]
+                    got, gotp = reg_rows_of(outs[kn]), reg_rows_of(outp[kn])
+                else:
+                    keys = set(k for p in S for k, _ in bal_rows(single[p][kn]))
+                    want = [row for row in unf[kn] if row[0] in keys]
+                    got, gotp = bal_rows(outs[kn]), bal_rows(outp[kn])
+                    if kn == "report" and 0 < len(got) < len(unf[kn]):
+                        st["lists_listing_a_proper_subset"] += 1
+                    # every single-pattern run lists rows of the unselected output with identical figures
+                    for p in S:
+                        if any(row not in unf[kn] for row in bal_rows(single[p][kn])):
+                            what = "a row listed for the single selector %r is not a row of the unselected output with the same figures" % p
+                    if what is None and not (deltas_recomputed(outs[kn]) and deltas_recomputed(outp[kn])):
+                        what = "a delta is not the sum of the listed own sums"
+                if what is None and got != want:
+                    extra = [k for k, _ in (got if kn != "register" else [x for e in got for x in e]) if k not in keys]
+                    what = ("the selector list does not list exactly the rows listed by at least one of its selectors alone"
+                            + (" (listed although no single selector lists it: %s)" % sorted(set(extra))[:6] if extra else ""))
+                if what is None and gotp != got:
+                    what = "the listed rows depend on the order of the selectors"
+                if what is None and kn != "register" and outs[kn]["ok"]["deltas"] != outp[kn]["ok"]["deltas"]:
+                    what = "the deltas depend on the order of the selectors"
+                if what is not None:
+                    run.violation("account selection (%s), metamorphic: %s" % (kn, what),
+                                  {"journal": c["text"], "selectors": S, "selectors_permuted": P, "operation": kn,
+                                   "listed_by_each_selector_alone": {p: sorted(set(k[0] for k in (
+                                       [x for x, _ in bal_rows(single[p][kn])] if kn != "register" else
+                                       [x for e in reg_rows_of(single[p][kn]) for x, _ in e]))) for p in S},
+                                   "selected_output": outs[kn], "selected_output_permuted": outp[kn],
+                                   "unselected_output": unf_b if kn != "register" else unf_r,
+                                   "replay_hint": "tackler --config <base.toml> --input.file <journal> --reports %s --accounts <selectors>; "
+                                                  "compare with one run per selector" % ("register" if kn == "register" else "balance")})
+    run.cov["evaluations"] += st["comparisons"]
+    run.notes["metamorphic"] = st
+
+
 def main(run):
     info = proof_stage(run, "C11", extra_targets=["corr/C11_corr.vo"])
     harness_build()
@@ -391,7 +588,8 @@ def main(run):
             ops += [{"op": "balance", "prices": False, "ras": t}, {"op": "balance", "prices": False, "ras": t, "kind": "equity"},
                     {"op": "register", "ras": t}]
         reqs.append({"conf": {"toml": toml}, "inputs": [{"text": c["text"]}], "ops": ops})
-    # F15 probe (known, outside the quantifier: pattern not valid on its own) + its converse
+    # F15 probe: a pattern that is not a regular expression on its own must be rejected (fixed: f40ad68);
+    # '(?x) a # comment' is valid on its own but breaks inside the one-line wrapper (second half of F15)
     probe_txt = "2024-01-01\n a  1\n a:b  2\n ab  3\n zzz  4\n e  -10\n"
     reqs.append({"conf": {"toml": toml}, "inputs": [{"text": probe_txt}],
                  "ops": [{"op": "balance", "prices": False, "ras": ["a)|(?:zzz"]},
@@ -480,13 +678,17 @@ def main(run):
             rep["correspondence"] = "C11_corr.c11_%s_case" % ("reg" if kind == "register" else "bal")
             run.violation("correspondence broken: model Select.selected_%s differs from implementation (spec oracle clean or selector rejected)"
                           % ("register" if kind == "register" else "balance"), rep, found_input=False)
+    metamorphic(run, toml)
     run.cov["distinct_nontrivial"] = len(distinct)
     run.cov["rule"] = ("sessions = journal posting every generated account name + 2-6 selector lists (1-3 patterns each) evaluated by "
                        "balance report, equity selection and register, each compared with the unselected output; patterns = random ASTs "
                        "of the subset (45%: one edit away from a literal account name: own ^/$, top-level alternation, .*, optional tail, "
                        "anchor in the middle) printed by the Coq-checked printer; account names = strings sampled from the patterns and "
                        "their neighbours extended/shortened/perturbed on either side; non-trivial = selection lists a proper non-empty "
-                       "subset of the rows; distinct = distinct (selector texts, listed names)")
+                       "subset of the rows; distinct = distinct (selector texts, listed names). Metamorphic stream (black box, no regex oracle): selector lists "
+                       "of 2-4 patterns incl. inline flags ((?i) (?i:..) (?s) (?x) (?U) (?-i)), \\d \\w \\b \\p{..} [[:alpha:]] {n,m} lazy quantifiers on journals "
+                       "with case variants of the account names: rows(S) = rows of the unselected output listed by >= 1 single selector, "
+                       "independent of the order of S, deltas recomputed; balance report, equity selector and register")
     run.notes.update({"stages": stages, "in_exact_domain": n_dom, "selection_outcomes": outcome, "ast_nodes": feats,
                       "pattern_name_pairs (python re as bystander)": st, "sessions": len(cases)})
     return run.finish(info)
